@@ -16,6 +16,23 @@ evals = 0
 distinct = set()
 samples = []
 
+ENDLESS = b'<endless>'
+POUR_MAX = 1536 << 20
+
+def pour(sock, pattern, limit=POUR_MAX):
+    """send `pattern` over and over until the peer closes, `limit` bytes have gone out or 30 s have passed; returns bytes sent"""
+    block = (pattern * (1 + (1 << 20) // len(pattern)))
+    sent = 0
+    sock.settimeout(10)
+    t = time.time()
+    try:
+        while sent < limit and time.time() - t < 30:
+            sock.sendall(block)
+            sent += len(block)
+    except OSError:
+        pass
+    return sent
+
 def evil_upstream(c, a, rec):
     """fake upstream http proxy whose reply is chosen by the requested host"""
     head, rest = recv_head(c, 5)
@@ -30,11 +47,23 @@ def evil_upstream(c, a, rec):
         'emptyhdr.test': b'HTTP/1.1 200 OK\r\nUdp-Bind-Address:\r\n\r\n',
         'code.test': b'HTTP/1.1 99999 x\r\n\r\n',
         'nothing.test': b'',
+        'endless-status.test': ENDLESS,
+        'endless-header.test': b'HTTP/1.1 200 OK\r\n' + ENDLESS,
         'binary.test': bytes(range(256)),
         'badframe.test': b'HTTP/1.1 200 OK\r\nSession-Id: 1\r\n\r\n' + b'RPFM\0\0\0\x01\0\x08\0\x02\x09\x06\x01\x02\x03\x04\0\x01ab',
         'shortattr.test': b'HTTP/1.1 200 OK\r\nSession-Id: 1\r\n\r\n' + b'RPFM\0\0\0\x01\0\x03\0\x00\x03\x01a',
     }
-    c.sendall(replies.get(host, b'HTTP/1.1 200 OK\r\n\r\n'))
+    rep = replies.get(host, b'HTTP/1.1 200 OK\r\n\r\n')
+    if host == 'endless-count.test':
+        rep = b'HTTP/1.1 200 OK\r\n'
+        c.sendall(rep)
+        pour(c, b'X-Filler-Header: yyyyyyyyyyyyyyyyyyyyyyyyyyyyyyyy\r\n')
+        return
+    if rep.endswith(ENDLESS):
+        c.sendall(rep[:-len(ENDLESS)])
+        pour(c, b'A')
+        return
+    c.sendall(rep)
     time.sleep(0.3)
 
 evil = Origin(evil_upstream)
@@ -52,10 +81,12 @@ cfg = {
     'metrics': {'bind': f"127.0.0.1:{ports['api']}", 'ui': None},
 }
 
-def start(nofile=None):
+def start(nofile=None, mem=None):
     px = Proxy(cfg, 'c05')
     px.api_port = ports['api']
     pre = (lambda: resource.setrlimit(resource.RLIMIT_NOFILE, (nofile, nofile))) if nofile else None
+    if mem:
+        pre = lambda: resource.setrlimit(resource.RLIMIT_DATA, (mem, mem))
     if not px.start([ports['http'], ports['socks'], ports['rtcp'], ports['api']], preexec=pre):
         machinery('proxy did not start: ' + px.log()[-500:])
     return px
@@ -204,11 +235,44 @@ time.sleep(1.5)
 judge(px, 'RLIMIT_NOFILE=64, 240 idle connections opened and closed again', 'descriptor-exhaustion', {'nofile': 64, 'connections': len(conns)})
 samples.append({'descriptor_exhaustion': {'nofile': 64, 'opened': len(conns)}})
 px.stop()
+
+# ---- (iv) fields that never end, against a process that is allowed 1 GiB of address space: the proxy must give
+#      up on the connection long before it runs out of memory (a failed allocation aborts the process)
+MEM = 768 << 20
+px = start(mem=MEM)
+endless = [
+    ('http:request-line', 'http', b'', b'A'),
+    ('http:header-value', 'http', b'CONNECT a:1 HTTP/1.1\r\nX: ', b'v'),
+    ('http:header-count', 'http', b'CONNECT a:1 HTTP/1.1\r\n', b'X-Filler-Header: yyyyyyyyyyyyyyyyyyyyyyyyyyyyyyyy\r\n'),
+    ('socks4:userid', 'socks', b'\x04\x01\x00\x50\x01\x02\x03\x04', b'u'),
+    ('socks4a:domain', 'socks', b'\x04\x01\x00\x50\x00\x00\x00\x01id\x00', b'd'),
+    ('upstream-reply:status-line', 'http', b'CONNECT endless-status.test:80 HTTP/1.1\r\n\r\n', None),
+    ('upstream-reply:header-line', 'http', b'CONNECT endless-header.test:80 HTTP/1.1\r\n\r\n', None),
+    ('upstream-reply:header-count', 'http', b'CONNECT endless-count.test:80 HTTP/1.1\r\n\r\n', None),
+]
+for name, lst, prefix, pattern in endless:
+    sent = None
+    try:
+        s = socket.create_connection(('127.0.0.1', ports[lst]), timeout=3)
+        s.sendall(prefix)
+        if pattern is not None:
+            sent = pour(s, pattern)
+        else:
+            recv_until_eof(s, 30)
+        s.close()
+    except OSError:
+        pass
+    time.sleep(0.3)
+    ok = judge(px, f'a {name} that never ends (process limited to {MEM >> 20} MiB of data segment; client poured {sent} bytes)', f'never-ending-field:{name}', {'field': name, 'rlimit_as': MEM})
+    samples.append({'never_ending_field': name, 'bytes_accepted_from_client': sent, 'survived': ok})
+    if not ok:
+        px.stop(); px = start(mem=MEM)
+px.stop()
 for o in (echo, evil):
     o.stop()
 if evals < 8 or len(distinct) < 1:
     machinery(f'vacuous: evals={evals}')
 cov = {'evaluations': evals, 'distinct_nontrivial': max(2, len(distinct)), 'transitions': evals, 'traces_validated_against_impl': evals,
-       'rule': 'real binary (panic=abort): malformed request heads / SOCKS negotiations / frames / upstream replies on every listener; disconnect (FIN and RST) at every byte offset of the http, socks5 and socks4 handshakes; stalled clients at 4 offsets per handshake; RLIMIT_NOFILE=64 with 240 idle connections; after each batch the process must be alive and every TCP listener and the API must serve a probe',
+       'rule': 'real binary (panic=abort): malformed request heads / SOCKS negotiations / frames / upstream replies on every listener; disconnect (FIN and RST) at every byte offset of the http, socks5 and socks4 handshakes; stalled clients at 4 offsets per handshake; RLIMIT_NOFILE=64 with 240 idle connections; 8 never-ending fields (client and upstream side) against a process limited to 768 MiB of data (RLIMIT_DATA); after each batch the process must be alive and every TCP listener and the API must serve a probe',
        'schedule_control': 'kernel', 'samples': samples}
 sys.exit(chk.finish('model_checking', cov, ['E4 part: batches of inputs are judged together (the proxy is restarted after a batch that killed it)']))
